@@ -1,7 +1,9 @@
-(* C12 — non-vacuity examples and the refutations of the opacity conjunct (recorded
-   findings: the unchanged code re-scans substituted text).  Each refutation is a
-   concrete template/context on which the implementation model (a) differs from the
-   single-pass reference rendering and (b) logs the (origin, pass) pair in the taint model. *)
+(* C12 — non-vacuity examples, and the refutations of the opacity conjunct for the LEGACY
+   model (the code before the repairs 1548caf / 29cb17a, [legacy = true] in Impl.v / Model.v),
+   kept as documentation.  Each refutation is a concrete template/context on which the legacy
+   model (a) differs from the single-pass reference rendering and (b) logs the (origin, pass)
+   pair in the legacy taint model; [fixed] shows the same input on the current model: the
+   reference text, empty taint log. *)
 From Coq Require Import ZArith List Bool String.
 From Verif Require Import C12.Impl C12.Spec C12.Model C12.Proofs.
 Import ListNotations.
@@ -19,28 +21,31 @@ Definition logged (o : origin) (p : pass) (r : toutcome * list failure) : bool :
    taint model attributes the difference to the channel (o, p) *)
 Definition refutes (T : list (str * template)) (t : template) (c : ctx) (o : origin) (p : pass)
                    (bad good : string) : Prop :=
-  impl_text (render_impl false (print_templates T) c (print t)) = Some (s bad) /\
+  impl_text (render_legacy false (print_templates T) c (print t)) = Some (s bad) /\
   spec_text (render_spec false T c t) = Some (s good) /\
   s bad <> s good /\
-  logged o p (render_taint false (print_templates T) c (print t)) = true.
+  logged o p (render_taint_legacy false (print_templates T) c (print t)) = true /\
+  (* ... and the repaired pipeline on the same input *)
+  impl_text (render_impl false (print_templates T) c (print t)) = Some (s good) /\
+  snd (render_taint false (print_templates T) c (print t)) = [].
 
 Ltac refute := vm_compute; repeat split; try reflexivity; discriminate.
 
 (* {{?x}} with x = "{{y}}": the optional pass inserts the value, the simple pass expands it *)
-Lemma c12_opacity_refuted_optional_simple :
+Lemma c12_opacity_optional_simple_legacy_refuted :
   exists T t c, refutes T t c FromOptional PSimple "LEAK" "{{y}}".
 Proof. exists [], [NLeaf (LOpt (s "x"))], leak_ctx. refute. Qed.
 
-Lemma c12_opacity_refuted_filtered_later :
+Lemma c12_opacity_filtered_later_legacy_refuted :
   exists T t c, refutes T t c FromFiltered PSimple "LEAK" "{{y}}".
 Proof. exists [], [NLeaf (LPipe (s "x") (s "trim"))], leak_ctx. refute. Qed.
 
-Lemma c12_opacity_refuted_default_later :
+Lemma c12_opacity_default_later_legacy_refuted :
   exists T t c, refutes T t c FromDefault PSimple "LEAK" "{{y}}".
 Proof. exists [], [NLeaf (LPipe (s "x") (s "no name"))], leak_ctx. refute. Qed.
 
 (* the default TEXT itself: template {{x|{{y}}}} = default "{{y" followed by "}}" *)
-Lemma c12_opacity_refuted_default_text :
+Lemma c12_opacity_default_text_legacy_refuted :
   exists T t c, refutes T t c FromDefault PSimple "LEAK" "{{y}}".
 Proof.
   exists [], [NLeaf (LPipe (s "x") (s "{{y")); NLeaf (LText (s "}}"))], [(s "y", VStr (s "LEAK"))].
@@ -48,7 +53,7 @@ Proof.
 Qed.
 
 (* the str.replace loop of the default pass finds a later match's text inside an earlier value *)
-Lemma c12_opacity_refuted_default_default :
+Lemma c12_opacity_default_default_legacy_refuted :
   exists T t c, refutes T t c FromDefault PDefault "ZZ" "{{z|c d}}Z".
 Proof.
   exists [], [NLeaf (LPipe (s "x") (s "a b")); NLeaf (LPipe (s "z") (s "c d"))],
@@ -56,7 +61,7 @@ Proof.
   refute.
 Qed.
 
-Lemma c12_opacity_refuted_loopitem_loopkeys :
+Lemma c12_opacity_loopitem_loopkeys_legacy_refuted :
   exists T t c, refutes T t c FromLoopItem PLoopKeys "[a0][True]" "[a{{index}}][{{last}}]".
 Proof.
   exists [], [NEach (s " ") (s "xs") [LText (s "["); LDot; LText (s "]")]],
@@ -64,7 +69,7 @@ Proof.
   refute.
 Qed.
 
-Lemma c12_opacity_refuted_loopitem_variables :
+Lemma c12_opacity_loopitem_variables_legacy_refuted :
   exists T t c, refutes T t c FromLoopItem PSimple "LEAK" "{{y}}".
 Proof.
   exists [], [NEach (s " ") (s "xs") [LDot]],
@@ -72,7 +77,7 @@ Proof.
   refute.
 Qed.
 
-Lemma c12_opacity_refuted_loopitem_include :
+Lemma c12_opacity_loopitem_include_legacy_refuted :
   exists T t c, refutes T t c FromLoopItem PInclude "SECRET" "{{>t1}}".
 Proof.
   exists [(s "t1", [NLeaf (LText (s "SECRET"))])], [NEach (s " ") (s "xs") [LDot]],
@@ -80,7 +85,7 @@ Proof.
   refute.
 Qed.
 
-Lemma c12_opacity_refuted_include_variables :
+Lemma c12_opacity_include_variables_legacy_refuted :
   exists T t c, refutes T t c FromInclude PSimple "<LEAK>" "<{{y}}>".
 Proof.
   exists [(s "t1", [NLeaf (LText (s "<")); NLeaf (LVar (s "x")); NLeaf (LText (s ">"))])],
@@ -89,13 +94,14 @@ Proof.
 Qed.
 
 (* strict mode rejects a loop variable although the reference expansion renders it *)
-Lemma c12_strict_rejects_loop_vars_refuted :
+Lemma c12_strict_rejects_loop_vars_legacy_refuted :
   exists t c,
-    render_impl true [] c (print t) = Err (EMissing (s "item")) /\
-    render_spec true [] c t = SOk (s "a") [].
+    render_legacy true [] c (print t) = Err (EMissing (s "item")) /\
+    render_spec true [] c t = SOk (s "a") [] /\
+    render_impl true [] c (print t) = Ok (s "a") [].
 Proof.
   exists [NEach (s " ") (s "xs") [LVar (s "item")]], [(s "xs", VList [IStr (s "a")])].
-  vm_compute. split; reflexivity.
+  vm_compute. repeat split; reflexivity.
 Qed.
 
 (* ------------------------------------------------------------------ *)
@@ -115,7 +121,7 @@ Definition ex_c : ctx :=
    (s "count", VStr (s "four"))].
 
 Example ex_render_eq_hyps :
-  delimiter_free ex_c = true /\
+  ctx_ok ex_c = true /\
   forallb (fun nt => well_formed (snd nt)) ex_T = true /\ well_formed ex_t = true /\
   render_spec false ex_T ex_c ex_t =
     SOk (s "== T =={{nope}}[Unknown template: gone]Hi BOB0:an/aFalse;1:bn/aTrue;4") [s "nope"] /\
@@ -123,13 +129,41 @@ Example ex_render_eq_hyps :
     Some (s "== T =={{nope}}[Unknown template: gone]Hi BOB0:an/aFalse;1:bn/aTrue;4").
 Proof. vm_compute. repeat split; reflexivity. Qed.
 
-Example ex_vars_only :
-  vars_only [NLeaf (LText (s "a ")); NLeaf (LVar (s "user")); NLeaf (LPipe (s "z") (s "no z"))] = true.
-Proof. reflexivity. Qed.
-
 Example ex_missing_var :
-  In (s "nope") (plain_vars [NIf (s " ") (s "user") [LVar (s "nope")] None]) /\ lookup ex_c (s "nope") = None.
+  In (s "nope") (plain_vars_out [NIf (s " ") (s "user") [LVar (s "nope")] None]) /\ lookup ex_c (s "nope") = None.
 Proof. vm_compute. auto. Qed.
 
 Example ex_unknown_include : word (s "gone") = true /\ lookup ex_T (s "gone") = None.
 Proof. vm_compute. auto. Qed.
+
+(* an adversarial context: every value carries template syntax, and is emitted verbatim *)
+Definition ex_adv : ctx :=
+  [(s "title", VStr (s "{{user}}{{>row}}")); (s "user", VStr (s "{{#if a}}x{{/if}}"));
+   (s "xs", VList [IStr (s "{{index}}{{>hdr}}"); IStr (s "}}{{?tail}}")]); (s "count", VStr (s "{{"))].
+Example ex_render_eq_adversarial :
+  ctx_ok ex_adv = true /\
+  render_spec false ex_T ex_adv ex_t =
+    SOk (s "== {{user}}{{>row}} =={{nope}}[Unknown template: gone]Hi {{#IF A}}X{{/IF}}0:{{index}}{{>hdr}}n/aFalse;1:}}{{?tail}}n/aTrue;2") [s "nope"] /\
+  impl_text (render_impl false (print_templates ex_T) ex_adv (print ex_t)) =
+    Some (s "== {{user}}{{>row}} =={{nope}}[Unknown template: gone]Hi {{#IF A}}X{{/IF}}0:{{index}}{{>hdr}}n/aFalse;1:}}{{?tail}}n/aTrue;2") /\
+  snd (render_taint false (print_templates ex_T) ex_adv (print ex_t)) = [].
+Proof. vm_compute. repeat split; reflexivity. Qed.
+
+(* what the sentinel side condition excludes: U+E000 in a value comes out as '{' *)
+Example ex_sentinel_value :
+  impl_text (render_impl false [] [(s "x", VStr [97; 57344; 98])] (print [NLeaf (LVar (s "x"))])) =
+    Some (s "a{b") /\
+  ctx_ok [(s "x", VStr [97; 57344; 98])] = false.
+Proof. vm_compute. split; reflexivity. Qed.
+
+(* strict mode: hypotheses of c12_strict_loop_vars / c12_strict_unbound_is_error are satisfiable *)
+Definition ex_loop : template :=
+  [NEach (s " ") (s "xs") [LVar (s "index"); LText (s "="); LVar (s "item"); LVar (s "zz")]].
+Example ex_strict_loop_vars :
+  out_bound [(s "xs", VList [IStr (s "a")]); (s "zz", VStr (s "!"))] ex_loop /\
+  render_spec true [] [(s "xs", VList [IStr (s "a")]); (s "zz", VStr (s "!"))] ex_loop = SOk (s "0=a!") [].
+Proof. split; [intros x []|reflexivity]. Qed.
+Example ex_strict_unbound :
+  In (LVar (s "zz")) (blocks [(s "xs", VList [IStr (s "a")])] ex_loop) /\
+  render_impl true [] [(s "xs", VList [IStr (s "a")])] (print ex_loop) = Err (EMissing (s "zz")).
+Proof. vm_compute. split; auto. Qed.
